@@ -200,9 +200,27 @@ func (s *scen) run() core.Result {
 	}
 	// DoInto under every capacity of the deviation range: same verdict, same bytes as Do.
 	for _, k := range s.ks {
-		buf := make([]byte, 0, len(src)+k)
+		// the buffer is the front of a larger arena whose rest is filled with 0xAA: nothing may be written
+		// behind the capacity handed to DoInto
+		bcap := len(src) + k
+		arena := make([]byte, bcap+len(src)+64)
+		for i := bcap; i < len(arena); i++ {
+			arena[i] = 0xAA
+		}
+		buf := arena[:0:bcap]
 		var e2 error
 		pi := core.Catch(func() { e2 = cv.DoInto(ctx, desc, src, &buf) })
+		for i := bcap; i < len(arena); i++ {
+			if arena[i] != 0xAA {
+				j := i
+				for j < len(arena) && arena[j] != 0xAA {
+					j++
+				}
+				r.Class = "violation"
+				r.Add(fmt.Sprintf("j2t.DoInto|%s|writes-beyond-capacity", s.op), "trigger %s, options %s, buffer with len 0 and cap %d = len(src)+%d: %d bytes written behind the capacity (offsets cap+%d..cap+%d: %x)\ndoc %s", s.trigger, s.optName, bcap, k, j-i, i-bcap, j-1-bcap, arena[i:j], clip(s.doc, 400))
+				break
+			}
+		}
 		r.Count("conversions", 1)
 		r.Count("dointo_runs", 1)
 		if pi != nil {
